@@ -94,8 +94,32 @@ let handle kind c =
     let state = next c in
     let npre = next_int c in
     let readstack = next_list c (fun c -> let k = next_bytes c in let v = next_n c in (k, v)) in
+    let parse_status = next c in
+    let parsed = next_list c (fun c -> let k = next_bytes c in let v = next_n c in (k, v)) in
     let bad = next c in
-    if bad <> "-" then diff "cache-harness" ~model:"-" ~impl:bad;
+    if state = "mapped" && (bad = "read-error-" || bad = "readstack-error-") then
+      prop "file-decoder-total" ("reading a stack counter back from its mapped file failed: " ^ bad)
+    else if bad <> "-" then diff "cache-harness" ~model:"-" ~impl:bad;
+    (* the file decoder (Parse) on the mapped file: total; the ordinary counter of the same file
+       is there; every stack counter is there under its expanded name - however long that is *)
+    if parse_status = "parse-err" then
+      prop "file-decoder-total" "Parse rejects the counter file the library itself wrote (stack counters + one ordinary counter)"
+    else if parse_status = "parse-ok" && List.length values = List.length stacks then begin
+      (match List.assoc_opt (bytes_of_string "plain/ordinary") parsed with
+       | Some v when int_of_n v = 1 -> ()
+       | _ -> prop "file-decoder-other-counters" "the ordinary counter of the same file is not reported with value 1");
+      List.iter2 (fun (_, fr, nm) v ->
+          let key = if blen (encode_raw name fr) <= limit then render_plain name fr else decode_stack nm in
+          let dup = List.length (List.filter (fun (_, _, nm') -> nm' = nm) stacks) > 1 in
+          match List.assoc_opt key parsed with
+          | None ->
+            prop "file-decoder-expands-names"
+              (Printf.sprintf "Parse has no entry for the expanded stack (%d bytes; encoded %d bytes) %s" (blen key) (blen nm)
+                 (let s = string_of_bytes key in if String.length s > 200 then String.sub s 0 200 ^ "..." else s))
+          | Some pv -> if (not dup) && pv <> v then
+              prop "file-decoder-values" (Printf.sprintf "Parse reports %d, the counter holds %d" (int_of_n pv) (int_of_n v)))
+        stacks values
+    end;
     if npre <> 0 then diff "cache-fresh" ~model:"0" ~impl:(string_of_int npre ^ " counters in a new StackCounter");
     (* ReadStack (countertest.ReadStackCounter), mapped or not: keyed by the EXPANDED names,
        i.e. the uncompressed rendering of each stack's frames, with the counter's value *)
@@ -150,6 +174,11 @@ let handle kind c =
                 end
               end
             end) arr) arr
+  | "hang" ->
+    let what = next c in
+    let rest = String.concat " " (Array.to_list (Array.sub c.toks c.pos (min 12 (Array.length c.toks - c.pos)))) in
+    prop "terminates" (Printf.sprintf "%s did not return within the watchdog limit; input (wire format): %s" what
+                         (if String.length rest > 600 then String.sub rest 0 600 ^ "..." else rest))
   | k -> diff "unknown-case-kind" ~model:k ~impl:"-"
 
 let () = run_file Sys.argv.(1) handle
